@@ -47,7 +47,7 @@ class World:
         now = self.now = sc.its_now_s(T0)
         live = dict(start=now - 1000, duration=("hours", 100))
         self.root = p.root("root", **live)
-        self.aa = p.issue(self.root, "aa", issue=[sc.perm_explicit([36, 37, 638, 99], 1)], **live)
+        self.aa = p.issue(self.root, "aa", issue=sc.split_groups([36, 37, 638, 99], rng, 1), **live)
         self.at1 = p.issue(self.aa, app=[36, 37, 638, 99], **live)
         self.at2 = p.issue(self.aa, app=[36, 37], **live)
         self.eroot = p.root("evil-root", **live)
